@@ -9,7 +9,7 @@ report failure by returning NULL."""
 from ..common import Report, finish
 from . import safety
 
-FAULT_KINDS = ('null-deref', 'wild-deref', 'use-after-free', 'bad-free', 'bounds', 'uninit-read', 'uninit-copy', 'dangling', 'div-zero', 'loop-leak')
+FAULT_KINDS = ('null-deref', 'wild-deref', 'use-after-free', 'bad-free', 'bounds', 'uninit-read', 'uninit-copy', 'dangling', 'div-zero', 'loop-leak', 'retry-unbounded')
 
 
 def run(tier):
